@@ -21,7 +21,7 @@ type c06Fault struct {
 func c06Faults() []c06Fault {
 	n, id := model.Num, model.Id
 	e := func(name string, f func() *model.N) c06Fault { return c06Fault{Name: name, E: f} }
-	return []c06Fault{
+	fs := []c06Fault{
 		e("undefined-name", func() *model.N { return id("qq") }),
 		e("undefined-assign", func() *model.N { return model.Asg("qq", n(1)) }),
 		{Name: "redeclaration", St: func() []*model.N { return []*model.N{model.Var("d", n(1)), model.Var("d", n(2))} }},
@@ -47,10 +47,29 @@ func c06Faults() []c06Fault {
 		e("builtin-wrong-kind", func() *model.N { return model.CallN(model.BiLen, n(1)) }),
 		e("builtin-wrong-count", func() *model.N { return model.CallN(model.BiSqrt) }),
 		e("delete-missing-key", func() *model.N { return model.CallN(model.BiDelete, id("o"), model.Str("zz")) }),
-		{Name: "stray-break", St: func() []*model.N { return []*model.N{model.Break()} }, Stray: true},
-		{Name: "stray-continue", St: func() []*model.N { return []*model.N{model.Continue()} }, Stray: true},
-		{Name: "stray-return", St: func() []*model.N { return []*model.N{model.Return(n(1))} }, Stray: true},
+		// faults whose diagnostic may quote program text: that text made of characters that are special to
+		// message formatting (format verbs, escapes, a fake line tag)
+		e("missing-property-on-modulo-expression", func() *model.N { return model.Prop(model.Idx(id("arr2"), model.Bin("%", n(3), n(2))), "zz") }),
+		e("missing-property-on-long-expression", func() *model.N {
+			return model.Prop(model.Idx(id("arr2"), model.Bin("%", model.Grp(model.Bin("*", n(3), n(7))), model.Grp(model.Bin("-", n(9), n(7))))), "zz")
+		}),
 	}
+	for _, txt := range []string{"%d", "%s", "100%", "%!v(", "%%", "%[1]d", "a\\b", "[line 99]", "%v %v %v"} {
+		txt := txt
+		fs = append(fs,
+			e("minus-text:"+txt, func() *model.N { return model.Un("-", model.Str(txt)) }),
+			e("text-minus-one:"+txt, func() *model.N { return model.Bin("-", model.Str(txt), n(1)) }),
+			e("delete-missing-key-text:"+txt, func() *model.N { return model.CallN(model.BiDelete, id("o"), model.Str(txt)) }),
+			e("call-text:"+txt, func() *model.N { return model.Call(model.Str(txt), n(2)) }),
+			e("property-of-text:"+txt, func() *model.N { return model.Prop(model.Str(txt), "zz") }),
+			e("sqrt-of-text:"+txt, func() *model.N { return model.CallN(model.BiSqrt, model.Str(txt)) }),
+			e("text-as-index:"+txt, func() *model.N { return model.Idx(id("arr"), model.Str(txt)) }),
+		)
+	}
+	return append(fs,
+		c06Fault{Name: "stray-break", St: func() []*model.N { return []*model.N{model.Break()} }, Stray: true},
+		c06Fault{Name: "stray-continue", St: func() []*model.N { return []*model.N{model.Continue()} }, Stray: true},
+		c06Fault{Name: "stray-return", St: func() []*model.N { return []*model.N{model.Return(n(1))} }, Stray: true})
 }
 
 func c06Prelude() []*model.N {
@@ -62,6 +81,7 @@ func c06Prelude() []*model.N {
 		model.Var("o", model.Obj([]string{"k"}, []*model.N{n(1)})),
 		model.Var("o2", n(5)),
 		model.Var("arr", model.Arr(n(10), n(20), n(30))),
+		model.Var("arr2", model.Arr(model.Obj([]string{"k"}, []*model.N{n(1)}), model.Obj([]string{"k"}, []*model.N{n(2)}))),
 		model.Var("v", n(0)),
 	}
 }
